@@ -118,6 +118,14 @@ fn main() {
             print!("{}", tree::dump(&root));
             println!("erroneous={}", root.erroneous());
         }
+        Some("keys") => {
+            // comment position keys of a file (debugging aid for known_findings.json)
+            let text = std::fs::read_to_string(&args[2]).unwrap();
+            let root = typst_syntax::parse(&text);
+            for l in tree::leaves(&root).iter().filter(|l| tree::is_comment(l.kind())) {
+                println!("{:>5} {:<40} {:?}", l.start, classifiers::comment_key(&root, l.start).unwrap_or_default(), util::clip(&text[l.start..l.end()], 30));
+            }
+        }
         Some("nf") => {
             let text = std::fs::read_to_string(&args[2]).unwrap();
             let root = typst_syntax::parse(&text);
